@@ -153,7 +153,9 @@ PROPS["C15"] = A("TestSim_C15",
         "media payloads are opaque strings; ICE server configuration is a fixed stub"])
 
 PROPS["C18"] = {
-    "engine": "sqlfault", "level": "fault_enumeration", "test": "TestSQLFault",
+    "engine": "sqlfault", "engine_name": "sqlfault", "level": "fault_enumeration", "test": "TestSQLFault",
+    "technique": "fault injection by complete enumeration: every statement position x fault kind of every transactional adapter operation, real adapter code over a simulated database connection, oracle over the recorded statement history",
+    "level_note": "trusted base: the fake database/sql driver (sqlfault/zz_sqlfault_test.go) and Go's database/sql; the enumeration is deterministic and complete over its catalogue (exhaustive: true in the evidence), not over all argument values",
     "rule": "complete enumeration, MySQL adapter: for each of the 20 transactional adapter operations (plus 13 single-statement writes checked for error reporting only) x argument shapes "
             "(81 in all) x result scripts (every query returns 0, 1 or 2 rows; every exec reports 0 or 1 affected rows) the fault-free statement stream of length n is recorded against a fake "
             "database/sql driver, then the operation is re-run on a fresh connection pool with a fault at every statement position k = 1..n (BEGIN, every Exec/Query/Prepare, COMMIT) for each "
@@ -176,5 +178,6 @@ NOT_APPLICABLE = {
 }
 
 LEVEL_TEXT = {
+    "C18": "Complete enumeration of a finite fault space: each transactional operation of the real MySQL adapter is run against a fake database connection once fault-free and once per (statement position, fault kind); the recorded BEGIN/statement/COMMIT/ROLLBACK history is judged. Exhaustive over the catalogue of operations, argument shapes and row scripts listed in the evidence.",
     "default": "Seeded deterministic simulation of the whole server (real hub/topic/session code on a token scheduler; simulated disk, clock, transports) with the property's oracle evaluated on every run. Sampling, not enumeration: a clean batch is evidence over the schedules, fault positions and request histories drawn, not a proof.",
 }
